@@ -15,7 +15,8 @@ from ..model import page as P
 ID = "C06"
 LEVEL = "exploration"
 RULE = (
-    "Hypothesis draws an initial directory (1-3 pages, all notes with ZIDs, sections, inherited header metadata), "
+    "Hypothesis draws an initial directory (1-3 pages, all notes with ZIDs, sections, inherited header metadata; half "
+    "of them from the small-pool generator whose notes and pages share tags, properties and links), "
     "indexes it with `db create`, then a history of 3-14 steps interpreted against the current state: append a "
     "word / bullet to a note, change kind or priority, add a note (with or without ZID), delete a note, move a "
     "note with its ZID to another page, add a tag / property / date to a title or section header (changes what "
